@@ -118,6 +118,15 @@ impl<'a> Sess<'a> {
             Ok(sk) => {
                 let st = sk.verif_state();
                 let mut v = json!({"op":"PUpd","id":id,"rc":[row,col],"st":sc(&st),"o":obs(&sk)});
+                // the writer's table selectors after every update (the thresholds are narrow bands of C)
+                if st.lg_k <= 14 && st.num_coupons > 0 {
+                    let (k, c) = (1u64 << st.lg_k, st.num_coupons as u64);
+                    let hybrid = 32 * c >= 3 * k && 2 * c < k;
+                    let pairs = if hybrid { c as u32 } else { st.table.len() as u32 };
+                    let (ph, bb) = datasketches::verif::cpc_format_selectors(st.lg_k, st.num_coupons, pairs);
+                    v["sel"] = json!([ph, bb]);
+                    v["selp"] = json!(pairs);
+                }
                 self.nupd += 1;
                 let deleted = col < st.window_offset as u32 && !st.sliding_window.is_empty();
                 if (deleted || self.nupd % 8 == 0) && sk.lg_k() <= 12 {
@@ -151,6 +160,19 @@ impl<'a> Sess<'a> {
         v["op"] = json!("PChk");
         v["id"] = json!(id);
         v["len"] = json!(len);
+        // C12: the writer's table selectors for this state (pairs in the encoded stream: all coupons for Hybrid)
+        {
+            let st = sk.verif_state();
+            let k = 1u64 << st.lg_k;
+            let c = st.num_coupons as u64;
+            if st.lg_k <= 14 && c > 0 {
+                let hybrid = 32 * c >= 3 * k && 2 * c < k;
+                let pairs = if hybrid { c as u32 } else { st.table.len() as u32 };
+                let (ph, bb) = datasketches::verif::cpc_format_selectors(st.lg_k, st.num_coupons, pairs);
+                v["sel"] = json!([ph, bb]);
+                v["selp"] = json!(pairs);
+            }
+        }
         // C12: preamble fields for the specification's header (word counts are read back from the image)
         {
             let img = sk.serialize();
@@ -437,6 +459,52 @@ fn union_random(out: &mut Shards, rng: &mut Rng, ulgk: u8, lgks: &[u8], n_inputs
     }
 }
 
+/// a well-filled Sparse source of large lg_k folded into a small, still sketch-shaped accumulator (one
+/// walk takes it past Hybrid / Pinned), and chains of ever smaller Sparse sources into a Sparse accumulator
+fn union_sparse_cases(out: &mut Shards, rng: &mut Rng) {
+    for &(ulgk, slgk) in &[(4u8, 12u8), (5, 12), (4, 11), (5, 11), (6, 12)] {
+        let mut s = Sess::new(out, "cpc-union-sparse-big");
+        let k = 1u64 << slgk;
+        let src = s.new_sketch(slgk);
+        let target = 3 * k / 32 - 1 - rng.below(4);
+        let mut n = 0;
+        while (s.get(src).num_coupons() as u64) < target && n < 100_000 && !s.dead {
+            let x = rng.next();
+            let (r, c) = row_col_of(x, slgk);
+            s.upd(src, r, c, Some(x));
+            n += 1;
+        }
+        s.chk(src);
+        let u = s.new_union(ulgk);
+        if rng.chance(1, 2) {
+            // the accumulator may already hold a few coupons
+            let small = make_input(&mut s, rng, ulgk, 1);
+            s.uupd(u, small);
+            s.utosk(u);
+        }
+        s.uupd(u, src);
+        let r = s.utosk(u);
+        s.chk(r);
+        s.uupd(u, src);
+        s.utosk(u);
+    }
+    for &lgks in &[[12u8, 10, 8], [11, 9, 7], [12, 11, 10], [10, 6, 4]] {
+        let mut s = Sess::new(out, "cpc-union-sparse-chain");
+        let u = s.new_union(12);
+        for &lgk in &lgks {
+            let id = s.new_sketch(lgk);
+            for _ in 0..rng.range(1, 3) {
+                let x = rng.next();
+                let (r, c) = row_col_of(x, lgk);
+                s.upd(id, r, c, Some(x));
+            }
+            s.uupd(u, id);
+            let r = s.utosk(u);
+            s.chk(r);
+        }
+    }
+}
+
 pub fn record(args: &Args) {
     let seed = args.u64("seed", 1);
     let mut rng = Rng::new(seed ^ 0xC9C);
@@ -467,12 +535,12 @@ pub fn record(args: &Args) {
                     let id = s.new_sketch(lgk);
                     crafted_walk(&mut s, &mut rng, id, lgk, if lgk == 7 { 40 } else { 24 });
                 }
-                let larger: &[u8] = if thorough && rep == 0 { &[10, 12, 13] } else { &[10, 12] };
+                let larger: &[u8] = if thorough && rep == 0 { &[10, 12, 13, 14] } else { &[10, 12] };
                 for &lgk in larger {
                     let k = 1usize << lgk;
                     let mut s = Sess::new(&mut out, "cpc-public-stream");
                     let id = s.new_sketch(lgk);
-                    stream_public(&mut s, &mut rng, id, lgk, if lgk == 10 { 5 * k } else { k }, 1500);
+                    stream_public(&mut s, &mut rng, id, lgk, if lgk == 10 { 5 * k } else if lgk == 12 { k } else if lgk == 13 { 3 * k } else { 2 * k }, 1500);
                     let r = s.rt(id);
                     s.chk(r);
                 }
@@ -482,6 +550,7 @@ pub fn record(args: &Args) {
             for &(ulgk, ref lgks) in &[(4u8, vec![4u8, 5, 6]), (5, vec![4, 5, 6, 7]), (8, vec![4, 6, 8]), (6, vec![6, 7, 8]), (11, vec![4, 5, 8])] {
                 union_random(&mut out, &mut rng, ulgk, lgks, if thorough { 12 } else { 10 }, if thorough { 14 } else { 10 });
             }
+            union_sparse_cases(&mut out, &mut rng);
         }
     }
     let (runs, events) = out.finish();
